@@ -493,6 +493,11 @@ class Parser(ExprParser):
                         node.attrs["_name"] = "ctor"
                         node.attrs["_constructor"] = True
                         more = False
+                    if not hasattr(ns, "typemap"):
+                        # A namespace name is not a type.
+                        self.error_msg(
+                            "'{}' is a namespace, not a type".format(ns_name)
+                        )
                     # Save fully resolved typename
                     node.typemap = ns.typemap
                     found_type = True
